@@ -86,3 +86,6 @@ package stat
 //@   assumed
 //@   ensures r != nil && allocated(r) && resNodeMap[resource] == r && (old(resNodeMap[resource]) != nil ==> r == old(resNodeMap[resource]))
 //@   modifies mapof(resNodeMap)
+
+// ---- C15: the resource-node registry is only touched under its lock
+//@ guarded resNodeMap by rnsMux {C15}
